@@ -381,7 +381,8 @@ def check_property(prop_id, mod_name, tier, repo, seed, only=None, nproc=16):
     for r in errors:
         print('HARNESS-ERROR %s: %s' % (r['cond'], (r.get('detail') or '')[:3000]), flush=True)
     wall = time.time() - t0
-    if not os.environ.get('VF_FIRST_VIOLATION'):      # seed-testing runs are not evidence
+    if not (os.environ.get('VF_FIRST_VIOLATION') or os.environ.get('VF_NO_EVIDENCE')):
+        # seed-testing and smoke runs are not evidence
         write_evidence(prop_id, mod, tier, seed, conds, results, known_hits, wall,
                        len(violations))
     if violations:
